@@ -468,12 +468,48 @@ class edit_keypress(_EditBase):
         return None if bool(handled_by_reference_editor(old, a.key)) else a.key
 
     def effects(old, s, a, result):
-        # callee use: the events of this call, so that the clauses below are assumed about a trace that has them —
-        # an editing key (insertion, backspace, delete) emits 'change' then 'postchange'; a cursor move or an unused key nothing
+        # callee use (the numeric variants call super().keypress): the state and the events this call leaves behind, case
+        # by case, as terms over the old state — the clauses below are then assumed about exactly this.  The cursor after
+        # left / right / backspace and the end of the deleted character stay unknowns that the clauses constrain.
         t, p = old._edit_text, old._edit_pos
-        if bool(edits_text(old, a.key)):
-            t2 = s.fields["_edit_text"]
-            s.trace.extend([("_emit", "change", (t2,), t, p), ("_emit", "postchange", (t,), t2, s.fields["_edit_pos"])])
+        n = tlen(t)
+        key = a.key
+        cmd = command_of(key)
+        empty = "" if t.kind == "str" else b""
+
+        def edit(new, pos):
+            s.fields["_edit_text"], s.fields["_edit_pos"] = new, pos
+            s.trace.extend([("_emit", "change", (new,), t, p), ("_emit", "postchange", (t,), new, pos)])
+
+        def keep(pos):
+            s.fields["_edit_text"], s.fields["_edit_pos"] = t, pos
+
+        unknown_pos = s.fields["_edit_pos"]  # fresh (havoc of `modifies`)
+        if bool(valid_char_of(old, key)):
+            ins = key_insertion(old, key)
+            edit(spliced(t, p, p, ins), p + tlen(ins))
+        elif bool(both(text_eq(key, "tab"), old.allow_tab)):
+            k = 8 - p % 8
+            edit(spliced(t, p, p, V_repeat(" ", k)), p + k)
+        elif bool(both(text_eq(key, "enter"), old.multiline)):
+            edit(spliced(t, p, p, "\n"), p + 1)
+        elif bool(cmd == Command.LEFT):
+            keep(p if bool(p == 0) else unknown_pos)
+        elif bool(cmd == Command.RIGHT):
+            keep(p if bool(p >= n) else unknown_pos)
+        elif bool(text_eq(key, "backspace")):
+            if bool(p == 0):
+                keep(p)
+            else:
+                edit(spliced(t, unknown_pos, p, empty), unknown_pos)
+        elif bool(text_eq(key, "delete")):
+            if bool(p >= n):
+                keep(p)
+            else:
+                end = cur().fresh_int("deleted_end")
+                edit(spliced(t, p, end, empty), p)
+        else:
+            keep(p)
         # ghost: the state the reference step leaves behind (the leading-zero loops of the numeric variants start from it)
         s.trace.append(("ref-step", s.fields["_edit_text"], s.fields["_edit_pos"]))
 
@@ -650,6 +686,8 @@ STRIP_LOOP = Loop(
 
 @contract(ED + "IntEdit.keypress", property="C10")
 class int_keypress:
+    branch_timeout_ms = 400  # the path conditions carry quantified text equalities: an `unknown` feasibility check keeps the branch (sound)
+    cover_timeout_ms = 3000  # likewise for the reachability guards: the point is covered by one of the quantifier-free paths
     self_shape = INTEDIT
     invariant = staticmethod(RI)
     globals_ = ENC
@@ -774,6 +812,8 @@ def in_alphabet(s, t):
 
 @contract(NE + "NumEdit.keypress", property="C10")
 class num_keypress:
+    branch_timeout_ms = 400  # the path conditions carry quantified text equalities: an `unknown` feasibility check keeps the branch (sound)
+    cover_timeout_ms = 3000  # likewise for the reachability guards: the point is covered by one of the quantifier-free paths
     self_shape = NUMEDIT
     invariant = staticmethod(RI)
     globals_ = ENC
